@@ -507,6 +507,16 @@ def RxnReadWriteRadicalsFull : Prop :=
       .roles ((R.map Prod.fst).map (join chDot)) ((A.map Prod.fst).map (join chDot)) ((P.map Prod.fst).map (join chDot))
         (R.map Prod.snd) (A.map Prod.snd) (P.map Prod.snd)
 
+/-- **rxn_read_write_roles_marks.** `rxn_read_write_roles` for molecules given with their marks (`WMol`): the role
+    partition and the molecule strings are restored also when molecules of a role print identically and differ in marks. -/
+theorem rxn_read_write_roles_marks (R A P : List WMol)
+    (hR : WrittenOK (R.map Prod.fst)) (hA : WrittenOK (A.map Prod.fst)) (hP : WrittenOK (P.map Prod.fst))
+    (hne : R ++ A ++ P ≠ [])
+    (hsp : ∀ m ∈ R ++ A ++ P, ∀ f ∈ m.1, ∀ c ∈ f, isSpace c = false) :
+    readRxn (formatRxn true false (R.map sigOfW) (A.map sigOfW) (P.map sigOfW)) =
+      .roles ((R.map Prod.fst).map (join chDot)) ((A.map Prod.fst).map (join chDot)) ((P.map Prod.fst).map (join chDot)) :=
+  (read_formatW R A P hR hA hP hne hsp).1
+
 /-- **rxn_read_write_radicals.** The full statement holds: any roles (empty ones included), any fragment sizes, salts
     (fragment contraction `f:` and radical indices `^1:` in one block), radical marks anywhere. -/
 theorem rxn_read_write_radicals : RxnReadWriteRadicalsFull :=
